@@ -223,7 +223,7 @@ def _flat_ext(tr):
     return [e for e in flat(tr) if e.kind == 'ext']
 
 
-ROOTS = [f'{TC}.cancel', f'{F}:TransferFuture.cancel', f'{F}:TransferFuture.result',
+ROOTS = [f'{TC}._transition_to_non_done_state', f'{TC}.set_status_to_queued', f'{TC}.set_status_to_running', f'{TC}.cancel', f'{F}:TransferFuture.cancel', f'{F}:TransferFuture.result',
          f'{TM}.shutdown', f'{TM}._shutdown', f'{TM}.__exit__', f'{CTRL}.cancel', f'{CTRL}.wait',
          f'{T}:SubmissionTask._main', f'{TASK}.__call__', f'{UP}:InterruptReader.read']
 
